@@ -37,7 +37,7 @@ POOLS = {
 def pattern_to_lexeme(pat):
     """Turn a keyword/symbol regex of the lexers into one concrete spelling."""
     s = pat.replace('\\b', '')
-    s = s.replace('[\\s]+', ' ').replace('\\s+', ' ').replace('[_|\\s]', '_').replace('[\\s]*', '')
+    s = s.replace('[\\s]+', ' ').replace('\\s+', ' ').replace('[_|\\s]', '_').replace('[_\\s]', '_').replace('[\\s]*', '')
     m = re.fullmatch(r'\((.*)\)', s)
     if m and '|' in m.group(1):
         s = m.group(1).split('|')[0]
